@@ -47,6 +47,10 @@ def c01(run):
     run.oblige("go build -overlay of the harness from the working tree (clock mode)", harness is not None, err)
     if usable and harness:
         seq_cache_runs(run, harness)
+    h = with_harness(run, "sched")
+    if usable and h:
+        # "never dropped by lazy deletion on read / DeleteExpired": reads of expired-uncleaned keys racing writers
+        sched_runs(run, h, ("cache", "cacheof"), "lazy", ("NONLIN", "PREFILL"), quick=(150, 6))
     return R.finish(run, GAPS["C01"])
 
 
@@ -92,7 +96,8 @@ def c02(run):
     h, err = R.build_harness(run, "sched")
     run.oblige("go build -overlay of the harness from the working tree (sched mode)", h is not None, err)
     if usable and h:
-        sched_runs(run, h, ("cache", "cacheof"), "", ("NONLIN", "PREFILL"))
+        sched_runs(run, h, ("cache", "cacheof"), "", ("NONLIN", "PREFILL"), quick=(400, 6))
+        sched_runs(run, h, ("cache", "cacheof"), "lazy", ("NONLIN", "PREFILL"), quick=(200, 6))
     return R.finish(run, GAPS.get("C02", []))
 
 
@@ -101,7 +106,10 @@ def c03(run):
     h, err = R.build_harness(run, "sched")
     run.oblige("go build -overlay of the harness from the working tree (sched mode)", h is not None, err)
     if usable and h:
-        sched_runs(run, h, ("map",), "", ("NONLIN", "PREFILL"), quick=(150, 6))
+        sched_runs(run, h, ("map",), "", ("NONLIN", "PREFILL"), quick=(600, 6))
+    lh = with_harness(run, "layout")
+    if usable and lh:
+        seq_map_runs(run, lh, None, kinds=("map",), quick=(16, 300))
     return R.finish(run, GAPS.get("C03", []))
 
 
@@ -110,11 +118,183 @@ def c04(run):
     h, err = R.build_harness(run, "sched")
     run.oblige("go build -overlay of the harness from the working tree (sched mode)", h is not None, err)
     if usable and h:
-        sched_runs(run, h, ("mapof",), "", ("NONLIN", "PREFILL"), quick=(150, 6))
+        sched_runs(run, h, ("mapof",), "", ("NONLIN", "PREFILL"), quick=(600, 6))
+    lh = with_harness(run, "layout")
+    if usable and lh:
+        seq_map_runs(run, lh, None, kinds=("mapof",), quick=(16, 300))
     return R.finish(run, GAPS.get("C04", []))
 
 
+def c10(run):
+    usable = common(run, ["CacheVerif.Props.C10", "CacheVerif.Proofs.LeafBits"])
+    lh, err = R.build_harness(run, "layout")
+    run.oblige("go build -overlay of the harness from the working tree (layout mode)", lh is not None, err)
+    kh, err = R.build_keys_harness(run)
+    run.oblige("go build of the key-type catalogue (external module, go 1.23, replace => /repo)", kh is not None, err)
+    if usable and lh:
+        # forced collisions in bucket index, top-hash / h2, and everything (hash modes 1-4 are drawn by the generator)
+        seq_map_runs(run, lh, None, quick=(24, 200), thorough=(400, 300))
+    if kh:
+        seeds = [run.seed] if run.tier == "quick" else [run.seed + i for i in range(6)]
+        for sd in seeds:
+            R.native_run(run, "keys_s%d" % sd, [kh, "seed=%d" % sd, "nops=%d" % Q(run, 3000, 12000)], ["BAD", "PANIC", "panic:"])
+    return R.finish(run, GAPS.get("C10", []))
+
+
+def with_harness(run, mode):
+    h, err = R.build_harness(run, mode)
+    run.oblige("go build -overlay of the harness from the working tree (%s mode)" % mode, h is not None, err)
+    return h
+
+
+ALL_KINDS = ("map", "mapof", "cache", "cacheof")
+
+
+def c05(run):
+    usable = common(run, ["CacheVerif.Props.C05"])
+    h = with_harness(run, "sched")
+    lh = with_harness(run, "layout")
+    ch = with_harness(run, "clock")
+    if usable and h:
+        sched_runs(run, h, ALL_KINDS, "racers", ("FN", "NONLIN", "PREFILL"), quick=(50, 6))
+        sched_runs(run, h, ALL_KINDS, "", ("FN",), quick=(40, 6), lin=False)
+    if usable and lh:
+        seq_map_runs(run, lh, None, quick=(10, 300))
+    if usable and ch:
+        seq_cache_runs(run, ch, quick=(400, 40))
+    return R.finish(run, GAPS.get("C05", []))
+
+
+def c06(run):
+    usable = common(run, ["CacheVerif.Props.C06"])
+    h = with_harness(run, "sched")
+    ch = with_harness(run, "clock")
+    if usable and ch:
+        seq_cache_runs(run, ch, quick=(800, 40))
+    if usable and h:
+        sched_runs(run, h, ("cache", "cacheof"), "", ("CALLBACK", "NONLIN", "PREFILL"), quick=(120, 6))
+        sched_runs(run, h, ("cache", "cacheof"), "range", ("CALLBACK",), quick=(40, 6), lin=False)
+        sched_runs(run, h, ("cache", "cacheof"), "lazy", ("CALLBACK", "NONLIN"), quick=(80, 6))
+    if ch:
+        R.native_run(run, "janitor_callbacks", [ch, "janitor"], ["BAD", "panic:"])
+    return R.finish(run, GAPS.get("C06", []))
+
+
+def c07(run):
+    usable = common(run, ["CacheVerif.Props.C07"])
+    h = with_harness(run, "sched")
+    lh = with_harness(run, "layout")
+    ch = with_harness(run, "clock")
+    if usable and lh:
+        seq_map_runs(run, lh, None, quick=(10, 300))
+    if usable and ch:
+        seq_cache_runs(run, ch, quick=(400, 40))
+    if usable and h:
+        sched_runs(run, h, ALL_KINDS, "range", ("RANGE",), quick=(300, 6), lin=False)
+    return R.finish(run, GAPS.get("C07", []))
+
+
+def c08(run):
+    usable = common(run, ["CacheVerif.Props.C08"])
+    h = with_harness(run, "sched")
+    lh = with_harness(run, "layout")
+    ch = with_harness(run, "clock")
+    if usable and lh:
+        seq_map_runs(run, lh, None, quick=(10, 300))
+    if usable and ch:
+        seq_cache_runs(run, ch, quick=(400, 40))
+    if usable and h:
+        sched_runs(run, h, ALL_KINDS, "", ("SIZE", "COUNT", "CLEAR"), quick=(100, 6), lin=False)
+        sched_runs(run, h, ALL_KINDS, "range", ("SIZE", "COUNT", "CLEAR"), quick=(30, 6), lin=False)
+    return R.finish(run, GAPS.get("C08", []))
+
+
+def c09(run):
+    usable = common(run, ["CacheVerif.Props.C09"])
+    ch = with_harness(run, "clock")
+    if usable and ch:
+        seq_cache_runs(run, ch, quick=(1500, 40))
+    h = with_harness(run, "sched")
+    if usable and h:
+        # reported instants under concurrency: GetWithExpiration / GetWithTTL racing writers that re-arm the key
+        sched_runs(run, h, ("cache", "cacheof"), "lazy", ("NONLIN", "PREFILL"), quick=(200, 6))
+    return R.finish(run, GAPS.get("C09", []))
+
+
+def strip_layout(l):
+    return l.split(" || ")[0]
+
+
+def c12(run):
+    usable = common(run, ["CacheVerif.Props.C12"])
+    ch = with_harness(run, "clock")
+    if usable and ch:
+        seq_cache_runs(run, ch, quick=(600, 40))
+        seq_map_runs(run, None, ch, quick=(10, 300))
+        nseq, nops = Q(run, (1500, 40), (40000, 60))
+        for sd in ([run.seed] if run.tier == "quick" else [run.seed, run.seed + 1, run.seed + 2]):
+            R.twin_differential(run, ch, "seqcache", "twins_cache_s%d" % sd,
+                                ["twin=cache", "seed=%d" % sd, "nseq=%d" % nseq, "nops=%d" % nops],
+                                ["twin=cacheof", "seed=%d" % sd, "nseq=%d" % nseq, "nops=%d" % nops])
+            R.twin_differential(run, ch, "seqmap", "twins_map_s%d" % sd,
+                                ["kind=map", "wb=0", "seed=%d" % sd, "nseq=%d" % Q(run, 20, 300), "nops=400"],
+                                ["kind=mapof", "wb=0", "seed=%d" % sd, "nseq=%d" % Q(run, 20, 300), "nops=400"])
+    lh = with_harness(run, "layout")
+    if usable and lh:
+        seq_map_runs(run, lh, None, quick=(16, 300))
+    h = with_harness(run, "sched")
+    if usable and h:
+        # both members of each pair must be linearizable against the same builtin-map / TTL semantics
+        sched_runs(run, h, ("map", "mapof"), "racers", ("NONLIN", "FN", "PREFILL"), quick=(100, 6))
+        sched_runs(run, h, ALL_KINDS, "", ("NONLIN", "PREFILL"), quick=(150, 6))
+    return R.finish(run, GAPS.get("C12", []))
+
+
+def c13(run):
+    usable = common(run, ["CacheVerif.Props.C13"])
+    h = with_harness(run, "sched")
+    if usable and h:
+        tags = ("DEADLOCK", "STEP-BUDGET", "HANG", "PANIC")
+        for focus in ("", "range", "racers"):
+            sched_runs(run, h, ALL_KINDS, focus, tags, quick=(50, 6), lin=False)
+    return R.finish(run, GAPS.get("C13", []))
+
+
+def c14(run):
+    usable = common(run, ["CacheVerif.Props.C14"])
+    rh, err = R.build_race_harness(run)
+    run.oblige("go build -race -overlay of the harness from the working tree", rh is not None, err)
+    if rh:
+        env = dict(R.ENV, GORACE="halt_on_error=1 exitcode=66")
+        seeds = [run.seed] if run.tier == "quick" else [run.seed + i for i in range(4)]
+        for sd in seeds:
+            R.native_run(run, "race_s%d" % sd, [rh, "race", "seed=%d" % sd, "rounds=%d" % Q(run, 3, 12), "ms=%d" % Q(run, 350, 1500)],
+                         ["DATA RACE", "BAD", "panic:", "fatal error"], env=env, timeout=3000)
+    return R.finish(run, GAPS.get("C14", []))
+
+
+def c15(run):
+    usable = common(run, ["CacheVerif.Props.C15"])
+    ch = with_harness(run, "clock")
+    if usable and ch:
+        seq_cache_runs(run, ch, quick=(300, 30))
+    if ch:
+        for i in range(Q(run, 1, 4)):
+            R.native_run(run, "janitor_%d" % i, [ch, "janitor"], ["BAD", "panic:"])
+    return R.finish(run, GAPS.get("C15", []))
+
+
+def c16(run):
+    usable = common(run, ["CacheVerif.Props.C16"])
+    h = with_harness(run, "sched")
+    if usable and h:
+        sched_runs(run, h, ALL_KINDS, "reader", ("SOLO-STUCK",), quick=(150, 6), lin=False)
+    return R.finish(run, GAPS.get("C16", []))
+
+
 PROPS = {
+    "C05": c05, "C06": c06, "C07": c07, "C08": c08, "C09": c09, "C12": c12, "C13": c13, "C14": c14, "C15": c15, "C16": c16,
+    "C10": c10,
     "C03": c03,
     "C04": c04,
     "C02": c02,
